@@ -315,7 +315,9 @@ def c16_composition(ntr: int, o1: int, o2: int, vel: int, ch: int, bpm: int) -> 
         notes, metas, ins, tempi, names, other = _decode_track(tracks[i])
         if notes != want[i][0] or metas != want[i][1] or ins or other or tempi != [(0, 60000000 // bpm)] or names != [("track %d" % i).encode("ascii")]:
             return False
-    return True
+    # writing the same composition again (same process, fresh file) gives the same file
+    path2 = vio.new_path("c16c2.mid")
+    return bool(MFO.write_Composition(path2, c, bpm)) and vio.get(path2) == vio.get(path)
 
 
 def claims(tier):
